@@ -7,7 +7,8 @@ import os
 import subprocess
 import sys
 
-WT = os.environ.get("SEED_WT", "/tmp/wt_seedtest")
+WT = os.environ.get("SEED_WT", "/tmp/wt_seedtest_%d" % os.getpid())
+EPHEMERAL = "SEED_WT" not in os.environ
 
 
 def sh(cmd, **kw):
@@ -45,6 +46,8 @@ def main():
         if verdict != "CAUGHT":
             print(r.stdout[-800:], r.stderr[-500:])
     sh(f"git -C {WT} checkout -q -- .")
+    if EPHEMERAL:
+        sh(f"git -C /repo worktree remove --force {WT}")
     return 0
 
 
